@@ -112,14 +112,20 @@ Theorem C19_join_valid : forall a b, a <> [] -> b <> [] ->
 Proof. exact join_valid_all. Qed.
 Print Assumptions C19_join_valid.
 
-(* Accept: PARTIAL — shown for "comma-stable" texts [ok_accept]; what is missing is a proof that every valid Accept
-   text is comma-stable (the render-completeness C03 does not have either).  The class contains the canonical text of
-   every header object and every decorated rendering of C03, and is closed under joining (next three theorems). *)
-Theorem C19_join_accept_partial : forall a b pa pb, ok_accept a -> ok_accept b ->
+(* Accept: the same, for ALL valid non-empty texts.  A quoted-string may contain commas, so the Accept scanner is not
+   comma-local on arbitrary strings; the proof goes through "comma-stable" texts [ok_accept] (Spec/C19_spec.v) and C03's
+   completeness theorem (every accepted Accept value is a decorated rendering, Proofs/C03_accept_complete.v). *)
+Theorem C19_join_accept : forall a b pa pb,
   parse_accept a = Some pa -> parse_accept b = Some pb -> a <> [] -> b <> [] ->
-  parse_accept (a ++ comma_sp ++ b) = Some (pa ++ pb) /\ ok_accept (a ++ comma_sp ++ b).
-Proof. exact accept_join. Qed.
-Print Assumptions C19_join_accept_partial.
+  parse_accept (a ++ comma_sp ++ b) = Some (pa ++ pb).
+Proof. exact accept_join_full. Qed.
+Print Assumptions C19_join_accept.
+
+(* every valid Accept text is comma-stable; so are the canonical text of every header object and every C03 rendering
+   (the last two do not depend on the completeness theorem) *)
+Theorem C19_accept_valid_stable : forall w, rmatch gen_accept w = true -> ok_accept w.
+Proof. exact valid_ok_accept. Qed.
+Print Assumptions C19_accept_valid_stable.
 
 Theorem C19_accept_canonical_stable : forall w p, parse_accept w = Some p ->
   ok_accept (str_accept p) /\ wf_hdr fam_accept ok_accept (Valid (str_accept p) p).
@@ -174,18 +180,19 @@ Theorem C19_created_wf_simple : forall h,
 Proof. exact created_wf_simple. Qed.
 Print Assumptions C19_created_wf_simple.
 
-(* Accept: PARTIAL in the same sense as C19_join_accept_partial (operand texts must be comma-stable) *)
-Theorem C19_add_value_accept_partial : forall self v right,
-  wf_hdr fam_accept ok_accept self -> ok_accept (accept_value_text v) ->
-  exists h, add_val fam_accept self v right = Ret h /\ wf_hdr fam_accept ok_accept h /\
+(* Accept: the same statements, no side condition (invalid operand texts need none: they contribute nothing) *)
+Theorem C19_add_value_accept : forall self v right, wf_hdr fam_accept all_ok self ->
+  exists h, add_val fam_accept self v right = Ret h /\ wf_hdr fam_accept all_ok h /\
             elements h = if right then contrib fam_accept v ++ elements self else elements self ++ contrib fam_accept v.
-Proof. exact accept_add_val. Qed.
-Print Assumptions C19_add_value_accept_partial.
-Theorem C19_add_header_accept_partial : forall self other,
-  wf_hdr fam_accept ok_accept self -> wf_hdr fam_accept ok_accept other ->
-  exists h, add_hdr fam_accept self other = Ret h /\ wf_hdr fam_accept ok_accept h /\ elements h = elements self ++ elements other.
-Proof. exact accept_add_hdr. Qed.
-Print Assumptions C19_add_header_accept_partial.
+Proof. exact accept_add_val_full. Qed.
+Print Assumptions C19_add_value_accept.
+Theorem C19_add_header_accept : forall self other, wf_hdr fam_accept all_ok self -> wf_hdr fam_accept all_ok other ->
+  exists h, add_hdr fam_accept self other = Ret h /\ wf_hdr fam_accept all_ok h /\ elements h = elements self ++ elements other.
+Proof. exact accept_add_hdr_full. Qed.
+Print Assumptions C19_add_header_accept.
+Theorem C19_created_wf_accept : forall h, wf_hdr fam_accept all_ok (create parse_accept h).
+Proof. exact accept_create_wf. Qed.
+Print Assumptions C19_created_wf_accept.
 
 (* the hypotheses are satisfiable, and a chain of additions composes: the header utf-8;q=0.5 plus the list
    [iso-8859-5, (star, 0)], then the reflected addition of the dict {a: 0.25, b: 1} on the left of that *)
